@@ -11,7 +11,7 @@ CHECKS = {
             "coordinate-derived symmetry oracle",
             "Complete enumeration: for each of the six descriptor classes every permutation of every position, every "
             "parity pair and every placeholder pattern (one to three lone pairs), over four identifier tuples (incl. the falsy id 0 and "
-            "identifiers whose Python hashes collide), is executed on the real classes and compared with proper/improper "
+            "identifiers whose Python hashes collide; numpy-typed identifiers / parity must behave like plain ones), is executed on the real classes and compared with proper/improper "
             "symmetry groups computed from idealised coordinates. The domain is finite modulo renaming and is covered "
             "completely, so within the stated idealisation this decides the property.",
             "Trusted: the idealised figures of DESIGN.md 4.1 and numpy's linear algebra; atoms inside a descriptor are "
@@ -38,7 +38,7 @@ CHECKS["C19"] = (
     EXPL + "; every ill-formed request injected in every reachable state",
     "Same explorer as C09; in every reachable state every ill-formed request of the kinds listed in the property "
     "(unknown atom/bond, self bond, descriptor or change on an unknown centre or on several/no centres, non-element atom "
-    "type, wrong-typed reaction label, deleting atom_type, deleting absent things) and every look-up about absent things "
+    "type, wrong-typed reaction label (also an explicit None on add_bond), three-label stereo changes with one foreign centre, deleting atom_type, deleting absent things) and every look-up about absent things "
     "is executed on the real object: it must raise (ill-formed) and the full normalised snapshot must be identical.",
     "Trusted: reference model's accept/reject rules (DESIGN.md 4.3); same bounds as C09.",
     "DESIGN.md 3, 5/C19")
@@ -52,7 +52,8 @@ CHECKS["C01"] = (
     "and reflexivity must hold on each. Empty, isolated-atom and disconnected graphs, 7/8-coordinate centres and "
     "graphs of 130 (thorough 260) atoms are in the universes. Library-derived twins (copy, construct, subgraph, compose, relabel "
     "round trip, JSON) and every sequence of two (thorough three) public mutator calls with hash/== evaluated after each call "
-    "must equal a freshly built graph with the content the reference model predicts.",
+    "must equal a freshly built graph with the content the reference model predicts; every spec is also built with numpy-typed "
+    "descriptor values.",
     "Trusted: refgraph/refstereo construct the variants; bounds: graphs up to 4-5 atoms completely, up to 14 atoms for the "
     "symmetric family; stereo-valid graphs only.",
     "DESIGN.md 5/C01, 4.1, 4.4")
@@ -61,7 +62,8 @@ CHECKS["C02"] = (
     "All ordered pairs inside complete labelled universes (MolGraph n<=3 all x all, n=4 x representatives; thorough all 1.2M "
     "labelled pairs n<=4), representatives x representatives for larger universes of all four classes, single-feature "
     "mutations of symmetric graphs, all cross-class pairs, all 26 pairs of non-isomorphic graphs with <=7 vertices that colour "
-    "refinement cannot separate under every renumbering, two-unit graphs against copies written with hash-colliding identifiers, "
+    "refinement cannot separate under every renumbering, all octahedral stars, several stereo changes of one kind meeting at one atom, "
+    "two-unit graphs against copies written with hash-colliding identifiers, "
     "and descriptor-class sequences over identical atom tuples: whenever the library says equal, a brute-force search must find a "
     "bijection preserving elements, bonds, bond roles, descriptors up to symmetry and stereo changes.",
     "Trusted: refiso (self-tested against n! enumeration) and refstereo; fully specified parities only.",
@@ -88,7 +90,7 @@ CHECKS["C16"] = (
 CHECKS["C05"] = (
     ENUM + " (set of all valid bijections from backtracking over atom bijections)",
     "For all ordered pairs of complete small universes and every label mode (default, elements, constant, degree, mismatching, "
-    "caller labels with colliding hashes) / stereo flag combination the full list yielded "
+    "caller labels with colliding hashes) / stereo flag combination (flags also as numpy.bool_ / 1) the full list yielded "
     "by vf2pp_all_isomorphisms is compared as a set with the set of valid bijections found by an independent backtracking "
     "search: no invalid mapping, none missing, none twice; symmetric graphs up to 14 atoms against themselves and relabelled "
     "copies; topological_symmetry_number against the number of stereo-preserving automorphisms.",
@@ -98,7 +100,7 @@ CHECKS["C05"] = (
 CHECKS["C06"] = (
     ENUM + " (reference mirror image + brute-force search for an isomorphism onto it)",
     "Every stereo spec of the universes (all descriptor classes, all stereoisomers, placeholders in atom, axis and planar-bond "
-    "descriptors, unspecified parity, axis chirality, stereo changes on atoms and bonds, with attributes): enantiomer() must equal the reference mirror image, leave "
+    "descriptors, unspecified parity, axis chirality, numpy-typed descriptor values, stereo changes on atoms and bonds, with attributes): enantiomer() must equal the reference mirror image, leave "
     "the original untouched, be an involution, and g == g.enantiomer() iff the oracle finds an isomorphism onto the mirror.",
     "Trusted: refgraph.mirror / refstereo / refiso.", "DESIGN.md 5/C06")
 CHECKS["C08"] = (
@@ -114,12 +116,12 @@ CHECKS["C10"] = (
     "For each source spec of all classes with attributes/descriptors/changes, each derivation (copy, copy-construct incl. "
     "cross-class, relabel copy, subgraph, compose, enantiomer, reverse_reaction, reactant, product, JSON) and each single edit "
     "from the full mutator menu (incl. in-place relabelling and the in-place change of a list / nested dict stored as attribute "
-    "value) applied to the derived graph and to the source, the other graph's snapshot must not change.",
+    "value, also inside a tuple) applied to the derived graph and to the source, the other graph's snapshot must not change.",
     "Trusted: snapshot of private containers; single follow-up edits only.", "DESIGN.md 5/C10")
 CHECKS["C11"] = (
     ENUM + " (specs x all injective total/partial mappings x copy/in-place; differential follow-ups against a fresh build)",
     "Every spec with <=5 atoms x all total permutations, pool injections and all partial mappings x copy/in-place: result equals "
-    "the reference renaming (also onto hash-colliding identifiers, for a 7-coordinate centre and 133-atom graphs), copy and in-place agree, the inverse mapping restores the original, and every follow-up edit / "
+    "the reference renaming (also onto hash-colliding identifiers, for a 7-coordinate centre and 133-atom graphs, with numpy-typed values and back), copy and in-place agree, the inverse mapping restores the original, and every follow-up edit / "
     "==/hash/matrix/components behaves as on a freshly built graph with the same labelled content.",
     "Trusted: refgraph.relabel; mappings with injective induced total map only.", "DESIGN.md 5/C11")
 CHECKS["C15"] = (
@@ -137,7 +139,7 @@ CHECKS["C17"] = (
     "the induced labelled subgraph of the reference model; components equal the union-find partition; compose over all 3^n "
     "covers by two (overlapping) pieces equals the labelled union with later-wins and leaves the pieces unchanged; composing the component subgraphs in every "
     "order reproduces the graph; graphs of 126-300 (thorough 1100) atoms: components, node components, compose of the "
-    "component subgraphs, a large induced subgraph.",
+    "component subgraphs, a large induced subgraph; two / three identical fragments composed in every order.",
     "Trusted: refgraph.subgraph/compose/components.", "DESIGN.md 5/C17")
 
 CHECKS["C07"] = (
@@ -148,7 +150,7 @@ CHECKS["C07"] = (
     "reflections and three noise levels; the perceived graph renamed back must have the same bonds and spatially identical "
     "descriptors (mirror images under reflection) and every descriptor must name the centre and exactly its bonded neighbours; "
     "reaction triples with independently moved geometries; 288 atoms under six reorderings; a caller-supplied switching function on a "
-    "five-coordinate carbon under all 720 orders; the caller's coordinate array overwritten after the Geometry was built.",
+    "five-coordinate carbon under all 720 orders (cut-off raised or set to 0.0, either key orientation); see-saw centres; the caller's coordinate array overwritten after the Geometry was built.",
     "Trusted: harness-side general-position guard and refstereo; a finite grid of a continuum (VERIF_SEED picks the generic "
     "motions and noise vectors).", "DESIGN.md 5/C07")
 CHECKS["C18"] = (
@@ -161,7 +163,7 @@ CHECKS["C18"] = (
     "Trusted: the enumerator's valence bookkeeping; RDKit as the carrier of the exported orders.", "DESIGN.md 5/C18")
 CHECKS["C20"] = (
     ENUM + " (value grid x element cycle x comment lines; all 118x118 element pairs at both sides of the cut-off)",
-    "XYZ write/read round trip over a coordinate value grid (signs, magnitudes up to 1e6, half-ulp-of-print cases), all 118 "
+    "XYZ write/read round trip (string route and UTF-8 file route) over a coordinate value grid (signs, magnitudes up to 1e6, half-ulp-of-print cases), all 118 "
     "elements, 1..1001 (thorough 10001) atoms and 11 comment lines; distance connectivity for all 13924 element pairs just below/above the cut-off "
     "and at distance 0 and 1e-9 x cut-off (coincident atoms), through the matrix API, the scalar API (also exactly at the cut-off "
     "and one ulp below) and MolGraph.from_geometry; invariance under rigid motion and atom permutation.",
@@ -172,7 +174,7 @@ CHECKS["C12"] = (
     "Every TH/SP/TB/OH permutation label of a complex with pairwise distinct ligands under all n! RenumberAtoms orders, every "
     "rooted SMILES re-spelling (which changes neighbour order and label) and the converter option combinations: equal graphs and "
     "hashes inside a stereoisomer, 2/3/20/30 pairwise unequal classes across labels; organic molecules: all stereoisomers x "
-    "renumbering family x rooted re-spellings (incl. 15 charged delocalised species whose resonance forms differ); map-number "
+    "renumbering family x rooted re-spellings (incl. 15 charged delocalised species whose resonance forms differ, macrocyclic E/Z bonds, benzo-fused medium rings); map-number "
     "import equals the renamed index import; class-level entry points agree with the converter.",
     "Trusted: RDKit 2024.09.3 (RenumberAtoms, SMILES writer/reader for non-tetrahedral stereo, EnumerateStereoisomers).",
     "DESIGN.md 5/C12")
@@ -181,7 +183,7 @@ CHECKS["C13"] = (
     "All 48/48/24/240/1440 orderings-and-parities of tetrahedral (with and without lone pair), square planar, trigonal "
     "bipyramidal and octahedral stars in two identifier pools with permuted insertion order, two-unit graphs, chains of two / "
     "three directly bonded coordination centres of every class pair, centres with a stereogenic ligand atom, E/Z chains of 130 / "
-    "262 atoms, all E/Z double "
+    "262 atoms, an E/Z alkene with a remote radical centre, bond-order flag also as numpy.bool_, all E/Z double "
     "bonds over 5 substituent elements with regenerated bond orders, and imported organics: export then import by atom-map "
     "number reproduces atoms, elements, bonds and spatially identical descriptors; export leaves the graph unchanged.",
     "Trusted: RDKit as the carrier; identifiers must be positive (atom-map numbers).", "DESIGN.md 5/C13")
@@ -192,7 +194,7 @@ CHECKS["C14"] = (
     "removing planar-bond descriptors of non-double bonds; for SP/TB/OH every placement of distinct ligands on the template "
     "vertices (24/120/720) x bond-creation orders x centre position x noise: the label RDKit assigns from 3D, imported, gives a "
     "descriptor spatially identical to the one perceived from the same coordinates; elongated octahedra perceived with a "
-    "caller-supplied switching function; every Geometry is built from a scratch array that is overwritten afterwards.",
+    "caller-supplied switching function; octahedra with heavy ligands and bent axes; every label also imported by atom-map number; every Geometry is built from a scratch array that is overwritten afterwards.",
     "Trusted: RDKit embedding and AssignStereochemistryFrom3D; guarded/flattened/short-contact conformers are skipped and "
     "counted.", "DESIGN.md 5/C14")
 
